@@ -221,7 +221,8 @@ func genGb(r *kit.Rand) []string {
 var modelledKinds = []string{"sample", "statecount", "wherecount", "evalcount", "alertgt", "alertmod", "sum", "count", "wherenested", "evalnested", "alertnested",
 	"stateduration", "changedetect", "derivative", "derivativenn", "windowc", "windowcfill", "alertthr", "alertthrsco",
 	"statecountfn", "statedurationfn", "winstatecountfn",
-	"winsample", "winstatecount", "winwhere", "winchange", "winderiv", "winsum", "wincount"}
+	"winsample", "winstatecount", "winwhere", "winchange", "winderiv", "winsum", "wincount",
+	"windowt", "windowtalign", "windowtfill", "alertflap", "winalert", "winalertcount"}
 var opaqueKinds []string
 
 func init() {
@@ -347,6 +348,9 @@ func genIso(r *kit.Rand, kind string, big bool) []string {
 		g.n = r.Range(2, 8)
 		if big {
 			g.n = r.Range(5, 14)
+		}
+		if kind == "alertflap" && r.Chance(2, 3) {
+			g.n = r.Range(6, 12) // the flapping flag needs several level changes inside a history of 5
 		}
 		gs = append(gs, g)
 	}
